@@ -28,6 +28,22 @@ M = [
     ("c08-cap-any-endgroup", "stochastic.py", "connecting_bond_idx = choose_compatible_weight(self.end_bonds, starting_bond, rng)", "connecting_bond_idx = choose_compatible_weight(self.end_bonds, None, rng)", ["C08", "C06", "C04"]),
     ("c08-equal-first-last", "core.py", "np.all(weights == weights[0])", "weights[0] == weights[-1]", ["C08"]),
     ("c08-tie-needs-three", "core.py", "if len(compatible_idx) > 0 and np.all(weights == weights[0]):", "if len(compatible_idx) > 0 and np.all(weights == weights[0]) and (len(weights) < 4 or weights[0] == 0):", ["C08"]),
+    ("c08-inverse-cdf-correct", "core.py", """    try:
+        idx = rng.choice(compatible_idx, p=weights)
+    except ValueError as exc:""", """    try:
+        if len(compatible_idx) == 0:
+            raise ValueError("a cannot be empty unless no samples are taken")
+        idx = compatible_idx[min(int(np.searchsorted(np.cumsum(weights), rng.random(), side="right")), len(weights) - 1)]
+    except ValueError as exc:""", []),
+    ("c08-inverse-cdf-unnormalised", "core.py", """    weights /= np.sum(weights)
+
+    try:
+        idx = rng.choice(compatible_idx, p=weights)
+    except ValueError as exc:""", """    try:
+        if len(compatible_idx) == 0:
+            raise ValueError("a cannot be empty unless no samples are taken")
+        idx = compatible_idx[min(int(np.searchsorted(np.cumsum(weights), rng.random(), side="right")), len(weights) - 1)]
+    except ValueError as exc:""", ["C08"]),
     ("c08-equiv-equal-test", "core.py", "np.all(weights == weights[0])", "np.all(weights[0] == weights)", []),
     ("c04-atom-shift", "mol_gen.py", "            bd.atom_bonding_to += current_atom_number\n", "            bd.atom_bonding_to += current_atom_number - 1 if len(other_bond_descriptors) > 2 else current_atom_number\n", ["C04", "C05"]),
     ("c04-no-compat-check", "mol_gen.py", "        if not other_bond_descriptors[other_bond_idx].is_compatible(\n            self.bond_descriptors[self_bond_idx]\n        ):", "        if False:", []),
